@@ -79,7 +79,7 @@ def gen_modular(rng, tier, nrand_quick, nrand_thorough, gen_kwargs=None, base=Tr
         n = rng.choice([1, 2, 3, 5, 8, 12])
         c = {'f': f, 'n': n, 'nv': nv, 'cols': fml.gen_trace(rng, nv, n), 'times': list(range(n)),
              'subs': [[nm, b, s] for (nm, b, s) in subs], 'main': main, 'consts': consts,
-             'style': rng.choice(['add_sub_spec', 'one_text'])}
+             'style': rng.choice(['add_sub_spec', 'one_text', 'add_sub_spec_nosemi'])}
         if (fml.ops(f) & (fml.TUN | fml.TBIN)) and rng.random() < 0.2:
             # bounds written with explicit units, another default unit and a sampling period in another unit
             p, pu = rng.choice([(1, 's'), (500, 'ms'), (2, 's'), (100, 'us'), (1000, 'ms'), (1, 'ms')])
@@ -139,6 +139,10 @@ def modular_spec(c):
     main = 'out = ' + fml.to_text(shrinkfix(c['main']), br)
     if c.get('style') == 'one_text':
         return dict({'spec': '\n'.join(subtexts) + '\n' + main + ';', 'consts': consts}, **unit_kw(c))
+    if c.get('style') == 'add_sub_spec_nosemi':
+        # the final ';' of every sub-specification (and of the specification) omitted, some with a comment after the last token
+        tails = ['', ' ', ' // sub', '\n']
+        subtexts = [t[:-1] + tails[(k + len(t)) % len(tails)] for k, t in enumerate(subtexts)]
     return dict({'subspecs': subtexts, 'spec': main, 'consts': consts}, **unit_kw(c))
 
 
